@@ -18,7 +18,7 @@ MANIFEST = {
              "before the callback; combined = search overlaid by advertisement), hence C04.ok on every model trace (c04_history); "
              "same_headers_differ, location_changed and combined_headers are proved equal to their declarative readings. Tied to "
              "the code by generated constants (IGNORED_HEADERS, private prefix) and by the per-event differential check through "
-             "the real listener stack with both the synchronous and the coroutine callback. New in round 2: combined_keywise (header by header: advertisement value if present else search value), stored_headers_nodup, combined_keywise_notified (no side hypothesis left), c04_history_raw on raw decoded headers."),
+             "the real listener stack with both the synchronous and the coroutine callback. New in round 2: combined_keywise (header by header: advertisement value if present else search value), stored_headers_nodup, combined_keywise_notified (no side hypothesis left), c04_history_raw on raw decoded headers. Round 4: saturation and IPv6 recogniser as in C03; ipv6_after_ipv4_is_no_change."),
     "note": ("Trusted: Lean kernel + standard axioms; header maps are the abstract maps of C16 (ASCII names); "
              "ip_version_from_location is hand-modelled for the generator's URL grammar; whether a location whose own validity "
              "lapsed still counts as known is left open by the text and both readings are accepted by the judge; "
@@ -33,7 +33,7 @@ RULE = ("the C03 history space with header variation: BOOTID/CONFIGID/custom/vol
 EXHAUSTIVE = {"quick": False, "thorough": False}
 ASSUMPTIONS = [
     "header names and values are ASCII",
-    "timestamps are integers (microseconds); max-age <= 1800 s in the generator, so the saturating valid_to sums are never taken (not modelled)",
+    "timestamps are integers (microseconds) on the harness' axis (epoch 2020-01-01), all within [datetime.min, datetime.max]",
     "URLs follow scheme://[user@]host[:port]/path with host a dotted quad, a name or a bracketed IPv6 literal",
     "callbacks do not mutate the device or the headers",
 ]
@@ -47,14 +47,14 @@ def chatty_history(rng, n: int) -> List[Any]:
     """one or two devices, few types, many header variations, mostly small gaps"""
     udns = K.UDNS[: rng.choice([1, 1, 2])]
     types = K.TYPES[: rng.choice([1, 2, 3])]
-    ts = 0
+    ts = K.start_time(rng)
     ops = []
     for _ in range(n):
-        ts += rng.choice([0, 1, 1, 2, 4, 6, 30, 901, -1]) * K.SEC
+        ts = K.clamp(ts + rng.choice([0, 1, 1, 2, 4, 6, 30, 901, -1]) * K.SEC)
         udn = rng.choice(udns)
         ty = rng.choice(types)
         loc, addr = rng.choice(K.GOOD_LOCS)
-        cache = rng.choice(K.CACHE[:5])
+        cache = rng.choice(K.CACHE[:5]) if rng.random() > 0.03 else rng.choice(K.HUGE)
         extra = [list(p) for p in rng.choice(K.EXTRA)]
         if rng.random() < 0.3:
             extra += [list(p) for p in rng.choice(K.EXTRA) if p[0].lower() not in {e[0].lower() for e in extra}]
@@ -84,7 +84,7 @@ def recipes(ctx: Ctx):
     for ops in K.exhaustive_histories(depth):
         out.append((f"e{i}", {"ops": ops}))
         i += 1
-    n_random = 20000 if ctx.thorough else 1200
+    n_random = 14000 if ctx.thorough else 1200
     for _ in range(n_random):
         n = ctx.rng.randrange(2, 60 if ctx.thorough else 30)
         if ctx.rng.random() < 0.6:
